@@ -36,7 +36,7 @@ LEVEL_TEXT = ('Lean 4 theorems over a line-by-line model of the digestion loops 
               'ArrayRow/Array.applyBorders, colspec styles, numCols): digest_roundtrip / items_roundtrip / table_roundtrip prove for EVERY tree of the grammar (lists, tables, groups, '
               'environments nested without bound) that digesting its token stream rebuilds exactly one item per \\item, one row per row, one cell per cell with the written content; '
               'multicolumn_span, full_row_spans_sum, colspec_compile/colspec_count (incl. *{n}{..} push-back, p{}, @{}, >{}), hline_marks_row, cline_marks_exactly, vbar_marks_columns, '
-              'borders_keep_cells, table_rules_adjacent (the index/mutation loop of Array.applyBorders equals the structural specTable: a rule-only row marks the bottom of the nearest content row above, a rule-only first row the top of the second row), link_cells_endpoints (Array.linkCells colspecStart/End = the declared columns a spanning cell covers), item_positions / list_state_restored (List.invoke, item.invoke, postArgument: every item of a forest nested <= 4 deep is numbered by the counter of its level with its rank among the unlabelled items; depth and counters are restored), table_rows_kept (Array.applyBorders keeps exactly the non-border-only rows with their cells untouched) and cell_format_isolated (a declaration stops at & / \\\\) are proved for all rows/specifications. The models are tied to the code by differential execution of the real classes and of real documents, '
+              'borders_keep_cells, table_pipeline (tokens -> digestion -> Array.applyBorders = specTable of the rows as written, for every table), item_keeps_trailing_declaration / declaration_stops_at_item (an \\item ends a bare declaration opened in the previous item: the next item is not swallowed), table_rules_adjacent (the index/mutation loop of Array.applyBorders equals the structural specTable: a rule-only row marks the bottom of the nearest content row above, a rule-only first row the top of the second row), link_cells_endpoints (Array.linkCells colspecStart/End = the declared columns a spanning cell covers), item_positions / list_state_restored (List.invoke, item.invoke, postArgument: every item of a forest nested <= 4 deep is numbered by the counter of its level with its rank among the unlabelled items; depth and counters are restored), table_rows_kept (Array.applyBorders keeps exactly the non-border-only rows with their cells untouched) and cell_format_isolated (a declaration stops at & / \\\\) are proved for all rows/specifications. The models are tied to the code by differential execution of the real classes and of real documents, '
               'including replay of recorded real token streams. Carried by correspondence only: which macro emits which phantom token and context depth, paragraphs(), '
               'argument parsing of \\item[..]/\\multicolumn/\\cline, the reading of rule placement from the written source (Spec.denTable, rule normal form) is compared on every run; refstepcounter/currentlabel and the \\the<counter> formatting of item numbers belong to C08.')
 LEVEL_NOTE = ('Trusted: Lean kernel (axioms propext, Classical.choice, Quot.sound only), translator (ColumnType.columnTypes), the correspondence harness, its canonicaliser '
@@ -45,7 +45,7 @@ TECHNIQUE = 'Lean 4 proof (mutual structural induction over document trees / spe
 TRUSTED = ['python oracle harness/props/c10.py:expect_* (the generator\'s own expectation for the doc10 stream)',
            'recording shim replacing plasTeX.TeX.bufferediter inside the harness process']
 ASSUMPTIONS = ['rule normal form for the Spec denotation of tables: \\hline/\\cline at the start of a row or alone in a row; \\cline spans aligned with cell boundaries',
-               'a bare font declaration directly in an item body (\\item \\bfseries x \\item y) is outside the generated grammar: its node absorbs the following items (observed, reported)',
+               'bare declarations (\\bfseries ..) in item bodies and cells are generated for the rec and doc10 streams and covered by item_keeps_trailing_declaration / cell_format_isolated; the Spec block grammar of the tree/table streams has no declaration node',
                'every document of a run is parsed in the same process without resetting any plasTeX state in between; the pos stream parses each document twice and requires equal results']
 RULE = ('trees generated recursively from the seed: lists (3 kinds, depth<=4, terms, multi-paragraph items, spaces / blank lines / \\par between \\begin{..} and the first \\item and after an \\item, groups/environments/math/tabulars inside), tabulars (1-5 columns, 1-6 rows, '
         'random colspecs with | p{} @{} >{} *{n}{}, \\multicolumn, \\hline/\\cline and the booktabs rules, \\\\ \\\\* \\\\[..] \\tabularnewline \\cr, [pos] arguments, tabular / tabular* / tabularx / tabulary / array / amsmath matrices, trivlist / list / enumerate[..], empty cells, groups, math, nested tabulars), list forests for the numbering streams, ~15% malformed documents for the rec stream; '
@@ -315,7 +315,11 @@ def block_words(b):
     if k == 'I':
         out = ['I%d.%s(' % (b[1], lead_word(b[2]))]
         for term, nsp, body in b[3]:
-            out += ['it%d.%s(' % (term, lead_word(nsp))] + blocks_words(body) + [')']
+            if body and body[-1][0] == 'D':      # the item ends in a bare declaration (Spec: Items.consD)
+                out += (['itD%d.%s.%d(' % (term, lead_word(nsp), body[-1][1])] + blocks_words(body[:-1]) + [')'] +
+                        ['D('] + blocks_words(body[-1][2]) + [')'])
+            else:
+                out += ['it%d.%s(' % (term, lead_word(nsp))] + blocks_words(body) + [')']
         return out + [')']
     if k == 'A':
         out = ['A%d(' % b[1]]
@@ -361,8 +365,8 @@ def shapes_of(bs):
 
 
 class Gen:
-    def __init__(self, rng, maxdepth=4, decl=False):
-        self.rng, self.maxdepth, self.decl = rng, maxdepth, decl
+    def __init__(self, rng, maxdepth=4, decl=False, itemdecl=False):
+        self.rng, self.maxdepth, self.decl, self.itemdecl = rng, maxdepth, decl, decl or itemdecl
 
     def text(self, n=None):
         return [['L', 't%d' % ord(self.rng.choice(LETTERS))] for _ in range(n or self.rng.randint(1, 3))]
@@ -404,6 +408,12 @@ class Gen:
             out.append(self.table(depth + 1, simple=True))
         while out and is_blank(out[0]):
             out.pop(0)
+        if self.itemdecl and r.random() < 0.15:
+            # \item ... \bfseries xy [nested list]: a bare declaration runs up to the next \item of this list (or its end)
+            inner = self.text()
+            if ldepth < 4 and depth < self.maxdepth and r.random() < 0.3:
+                inner = inner + [self.list(depth + 1, ldepth + 1)] + (self.text() if r.random() < 0.5 else [])
+            out.append(['D', r.choice([5, 6, 7]), inner])
         return out
 
     def list(self, depth=0, ldepth=1):
@@ -465,6 +475,17 @@ class Gen:
                     break                                                        # short row
             if r.random() < (0.15 if simple else 0.4):
                 cells[0] = self.rules(ncols, [cell_span(c)[0] for c in cells]) + cells[0]
+            if not simple and r.random() < 0.08:
+                # outside the rule normal form (Spec.specTable / table_pipeline still say what must happen): a rule after the
+                # content of the last cell (marks the bottom of this row), a rule or \vline at the start of another cell
+                k = r.randrange(len(cells))
+                x = r.random()
+                if x < 0.4 and not (cells[-1] and cells[-1][-1][0] == 'D'):       # (after a declaration the rule would belong to it)
+                    cells[-1] = cells[-1] + self.rules(ncols, [cell_span(c)[0] for c in cells])
+                elif x < 0.7:
+                    cells[k] = [['L', 'vl']] + cells[k]
+                else:
+                    cells[k] = self.rules(ncols, [cell_span(c)[0] for c in cells]) + cells[k]
             rows.append(cells)
         if r.random() < 0.6:
             rows.append([self.rules(ncols, [cell_span(c)[0] for c in rows[-1]]) if r.random() < 0.6 else []])  # what follows the last \\
@@ -869,11 +890,23 @@ def gen_events(rng):
 
 def judge(o):
     st = o.case.stream
+    if st == 'rec' and o.case.meta and o.case.meta.get('expect'):
+        # a recorded stream of a well-formed generated document is inside the property's domain: the expected tree is the
+        # generator's own (so a model/implementation difference on it is an alarm, not an out-of-domain note)
+        o.spec = o.case.meta['expect']
     if o.impl == 'skip':
         o.corr_ok = o.prop_ok = True
         return
     o.corr_ok = (o.impl == o.model)
     o.prop_ok = (o.spec in ('-', '') or o.impl == o.spec)
+    if st == 'table' and len(o.aux) > 2 and o.aux[2].startswith('ok:') and not o.impl.startswith('err'):
+        # Spec.specTable of the rows as written (theorem table_pipeline) is defined for every placement of rule commands,
+        # also outside the rule normal form of denTable: the real finished rows must equal it
+        if o.spec in ('-', ''):
+            o.spec = o.aux[2]
+        if o.impl != o.aux[2]:
+            o.prop_ok = False
+            o.note = 'finished rows differ from specTable of the written rows: ' + o.aux[2][:200]
     if st == 'cspec' and o.spec not in ('-', ''):
         # colspec_count: the number of columns is the declared count
         if o.impl.startswith('ok:') and len(o.aux) > 2 and len(o.impl[3:].split()) != int(o.aux[2]):
@@ -890,6 +923,7 @@ def nontrivial(o):
     if st == 'tree': return o.case.line.count('it') >= 2 or o.case.line.count('&') >= 1
     if st == 'table': return '&' in o.case.line or 'nl' in o.case.line
     if st == 'pos': return o.case.line.count('i') >= 2
+    if st == 'rec': return o.case.line.count(':i') >= 2 or o.case.line.count(':&') >= 1
     return False
 
 
@@ -956,9 +990,11 @@ def rec_case(tex, origin='gen'):
 
 def gen_ctoks(rng):
     if rng.random() < 0.25:
-        return rng.choice([['124'], ['60', 'bg', '120', 'eg', '108'], ['124', '124'], ['108', '112'], ['108', '42'], ['108', '64'],
-                           ['62'], ['sp', '108', 'sp', '124', 'sp', '99'], ['108', '112', 'sp', 'bg', '50', 'eg'], ['42', '50', '108', '114'],
-                           ['108', '60', 'bg', '120', 'eg', '124'], ['108', '42', 'bg', '51', 'eg']])
+        # (a column letter or `> @ *` whose argument is missing at the very end reads past the colspec: that is
+        #  tex.readArgument at the end of its input, C05's subject, not generated here)
+        return rng.choice([['124'], ['60', 'bg', '120', 'eg', '108'], ['124', '124'],
+                           ['sp', '108', 'sp', '124', 'sp', '99'], ['108', '112', 'sp', 'bg', '50', 'eg'], ['42', '50', '108', '114'],
+                           ['108', '60', 'bg', '120', 'eg', '124']])
     alphabet = ['108', '99', '114', '124', '124', 'sp', '112 bg 50 eg', '64 bg eg', '64 bg 58 eg', '62 bg 120 eg', '60 bg 120 eg',
                 '42 bg 50 eg bg 108 124 eg', '42 bg 51 eg bg 99 eg', '88', '100 bg 46 eg', '42 bg 50 eg bg 42 bg 50 eg bg 108 eg 124 eg']
     out = []
@@ -989,7 +1025,7 @@ def generate(ctx):
         yield Case('pos', ' '.join(gen_forest(rng)), {'seed': rng.randrange(1 << 30)})
     for _ in range(120 if q else 2000):
         yield Case('posev', ' '.join(gen_events(rng)), {'seed': rng.randrange(1 << 30)})
-    g = Gen(rng)
+    g = Gen(rng, itemdecl=True)
     for _ in range(300 if q else 2500):
         yield tree_case(g.list())
     for _ in range(120 if q else 1200):
@@ -1004,14 +1040,18 @@ def generate(ctx):
     while made < n_rec:
         b = g.list() if rng.random() < 0.45 else g.table()
         tex = block_tex(b)
+        expect = 'ok:' + ' '.join(['Be0('] + shape_of(kept_rows(b)) + [')'])
         if rng.random() < 0.15:
             tex = malform(rng, tex)
+            expect = None
             ctx.count('rec:malformed')
         c = rec_case(tex)
         made += 1
         if c is None:
             ctx.count('rec:impl-error-or-unmodelled')
             continue
+        if expect:
+            c.meta['expect'] = expect       # well-formed generated document: the generator's own tree is the oracle (in domain)
         yield c
 
 
@@ -1037,7 +1077,10 @@ def corpus():
     for c in cs:
         c.origin = 'corpus'
     r = rec_case('\\begin{tabular}{ll}\\bfseries a & b \\\\ \\hline c & $d$ \\\\ \\hline \\end{tabular}', 'corpus')
-    return cs + ([r] if r else [])
+    r2 = rec_case(block_tex(ITEM_DECL_AST), 'corpus')        # former known finding item-absorbed-by-declaration
+    if r2:
+        r2.meta['expect'] = 'ok:' + ' '.join(['Be0('] + shape_of(ITEM_DECL_AST) + [')'])
+    return cs + [x for x in (r, r2) if x]
 
 
 # ---------------------------------------------------------------- shrink / search
@@ -1094,7 +1137,7 @@ def shrink(ctx, o, evaluate):
 
 def search(ctx, evaluate, corr_bad):
     rng = _random.Random(ctx.seed + 104729)
-    g = Gen(rng)
+    g = Gen(rng, itemdecl=True)
     cases = []
     for _ in range(3000):
         spec = gen_cspec(rng, rng.randint(1, 6))
@@ -1120,13 +1163,20 @@ def search(ctx, evaluate, corr_bad):
 
 # ---------------------------------------------------------------- document level: doc10
 
+# former known finding item-absorbed-by-declaration (fixed): \begin{itemize}\item \bfseries x \item y\end{itemize}
+ITEM_DECL_AST = ['I', 1, '', [[0, '', [['D', 5, [['L', 't120'], ['L', 's']]]]], [0, '', [['L', 't121']]]]]
+
+
 def extra_checks(ctx):
     rng = _random.Random(ctx.seed * 13 + 5)
     g = Gen(rng, decl=True)
     n = 600 if ctx.tier == 'quick' else 6000
     viol, samples, distinct = [], [], set()
-    for i in range(n):
-        ast = g.math_array() if i % 9 == 0 else g.list() if i % 2 else g.table()
+    witnesses = [ITEM_DECL_AST,
+                 ['I', 2, 'P', [[0, '', [['L', 't97'], ['D', 6, [['L', 't120'], ['I', 1, '', [[0, '', [['L', 't121']]], [0, '', [['D', 5, [['L', 't122']]]]]]]]]]],
+                                [0, '', [['L', 't98']]]]]]
+    for i in range(-len(witnesses), n):
+        ast = witnesses[i] if i < 0 else g.math_array() if i % 9 == 0 else g.list() if i % 2 else g.table()
         why, r = check_doc_pair(ast)
         tex = block_tex(ast)
         if tex.count('\\item') >= 2 or tex.count('&') >= 1:
